@@ -112,11 +112,46 @@ func TestVerifPP(t *testing.T) {
 		if r.intn(2) == 0 {
 			hs, hd := randAddr(r, v6), randAddr(r, v6)
 			var buf bytes.Buffer
-			if r.intn(2) == 0 {
-				proxyprotocol.HeaderV1{SrcIP: hs.IP, DestIP: hd.IP, SrcPort: hs.Port, DestPort: hd.Port}.WriteTo(&buf)
-			} else {
-				proxyprotocol.HeaderV2{Command: proxyprotocol.CmdProxy, Src: hs, Dest: hd}.WriteTo(&buf)
+			declares := true // the header declares addresses (otherwise the connection keeps its own)
+			v2sig := []byte("\r\n\r\n\x00\r\nQUIT\n")
+			rawV2 := func(verCmd, fam byte, body []byte) {
+				buf.Write(v2sig)
+				buf.Write([]byte{verCmd, fam, byte(len(body) >> 8), byte(len(body))})
+				buf.Write(body)
 			}
+			addrBlock := func() []byte { // the address block of a TCP4 / TCP6 header for hs > hd
+				var b []byte
+				if v6 {
+					b = append(append(b, hs.IP.To16()...), hd.IP.To16()...)
+				} else {
+					b = append(append(b, hs.IP.To4()...), hd.IP.To4()...)
+				}
+				return append(b, byte(hs.Port>>8), byte(hs.Port), byte(hd.Port>>8), byte(hd.Port))
+			}
+			fam := byte(0x11)
+			if v6 {
+				fam = 0x21
+			}
+			switch r.intn(7) {
+			case 0, 1:
+				proxyprotocol.HeaderV1{SrcIP: hs.IP, DestIP: hd.IP, SrcPort: hs.Port, DestPort: hd.Port}.WriteTo(&buf)
+			case 2, 3:
+				proxyprotocol.HeaderV2{Command: proxyprotocol.CmdProxy, Src: hs, Dest: hd}.WriteTo(&buf)
+			case 4: // v2 LOCAL without addresses (what a balancer's health check sends)
+				rawV2(0x20, 0x00, nil)
+				declares = false
+				desc += " hdr=v2-local"
+			case 5: // v2 LOCAL with an address block that the receiver must ignore
+				rawV2(0x20, fam, addrBlock())
+				declares = false
+				desc += " hdr=v2-local-addr"
+			case 6: // v2 PROXY with the unspecified family
+				rawV2(0x21, 0x00, nil)
+				declares = false
+				desc += " hdr=v2-unspec"
+			}
+			// (headers with TLVs are not generated: the PROXY protocol library in use accepts only the exact address-block lengths,
+			// so such a header is not accepted and the property makes no claim about it)
 			inHdr = buf.Bytes()
 			pp := map[string]any{"handler": "proxy_protocol"}
 			trusted := true
@@ -129,7 +164,9 @@ func TestVerifPP(t *testing.T) {
 			}
 			handlers = append(handlers, pp)
 			if trusted {
-				effSrc, effDst = hs, hd
+				if declares {
+					effSrc, effDst = hs, hd
+				}
 				desc += " recv=honoured"
 			} else {
 				desc += " recv=untrusted"
@@ -159,7 +196,24 @@ func TestVerifPP(t *testing.T) {
 		cx := layer4.WrapConnection(sc, make([]byte, 0, 2048), zap.NewNop())
 		fmt.Fprintf(out.cases, "pp %d tcp %s %d %s %d\n", ver, ipTok(effSrc), effSrc.Port, ipTok(effDst), effDst.Port)
 		out.cases.Flush()
-		err := h.Handle(cx)
+		var err error
+		func() {
+			defer func() {
+				if p := recover(); p != nil {
+					err = fmt.Errorf("panic: %v", p)
+					out.fail(idx, "panic:proxy_protocol-handler", fmt.Sprintf("the handler chain panicked on a well-formed stream: %v (%s)", p, desc))
+				}
+			}()
+			err = h.Handle(cx)
+		}()
+		if err != nil && strings.HasPrefix(err.Error(), "panic:") {
+			// nothing reached the peers in an orderly way: do not wait for them
+			for i := 0; i < npeers; i++ {
+				sinks[i].take(50 * time.Millisecond)
+			}
+			fmt.Fprintln(out.out, "panic")
+			continue
+		}
 		var hdrs []string
 		for i := 0; i < npeers; i++ {
 			got, ok := sinks[i].take(5 * time.Second)
